@@ -179,11 +179,13 @@ func (f changeFinder) Walk(from, to *value) (equal bool) {
 		}
 
 		// Dereferencing a pointer or interface doesn't affect region.
-		if f.Walk(from.Elem, to.Elem) {
-			f.unchanged(from, to)
-			return true
-		}
-		return false
+		//
+		// The comments around a node are around what the node has
+		// become, too: they delimit its region and those of its
+		// siblings when a later change is looked at.
+		equal = f.Walk(from.Elem, to.Elem)
+		f.unchanged(from, to)
+		return equal
 
 	case reflect.Slice:
 		if f.walkSlice(from, to) {
